@@ -184,6 +184,7 @@ struct World {
     virtual bool sut_user_lock() { return false; }         // container->lock() by the client (false: this world has no lock API)
     virtual void sut_prepare(Op &) {}                      // sequential modes: resolve placement-dependent arguments before the model sees the op
     virtual void *sut_mutex() { return nullptr; }
+    virtual bool sut_sees_mutex() { return false; }        // true when this adapter can read the container's lock pointer (structure view)
     virtual std::string render(const Op &op) const;        // human readable op
 };
 
